@@ -24,7 +24,7 @@ Local Open Scope Z_scope.
 Inductive region := RIn | ROut.
 Inductive val := VInt (z : Z) | VPtr (r : region) (off : Z) | VNull | VUndef.
 
-Inductive cty := TInt | TUChar | TChar | TUInt.
+Inductive cty := TInt | TUChar | TChar | TUInt | TSizeT.
 Inductive binop := Add | Sub | Mul | Div | Shl | Shr | BAnd | BOr | BXor | Lt | Le | Gt | Ge | Eq | Ne.
 
 Inductive expr :=
@@ -46,6 +46,8 @@ Inductive expr :=
 | EWriteByte (e : expr)                (* fwrite(&x, 1, 1, f): 1 and the byte appended, or 0 when the stream refuses it *)
 | EReadInt32 (x : string)              (* fread(p, sizeof(int), 1, f), p an int*: the cell x := the next four bytes, little-endian (the x86 host); 1, or 0 with the rest of the stream consumed *)
 | EWriteInt32 (e : expr)               (* fwrite(&v, sizeof(int), 1, f): the four bytes of v, little-endian; 1, or 0 with as many bytes as the stream still took *)
+| ELoadInt32 (p idx : expr)            (* ((int* )p)[idx]: the int stored little-endian in the four bytes at p + 4*idx of the caller's buffer *)
+| EWriteBuf (p n : expr)               (* fwrite(p, 1, n, f): the n bytes at p of the caller's buffer; the number of bytes the stream took *)
 | ESeekCur (e : expr)                  (* fseek(f, e, SEEK_CUR) with e >= 0 on a regular file: the position moves on (also beyond the end), 0 *)
 | EPtrAdd (p e : expr)                 (* p + e on a char pointer *)
 | EPostDec (x : string)
@@ -150,6 +152,7 @@ Definition cast (t : cty) (v : val) : option val :=
     | TUChar => Some (VInt (z mod 256))
     | TChar => Some (VInt ((z + 128) mod 256 - 128))
     | TUInt => Some (VInt (z mod u32))
+    | TSizeT => if 0 <=? z then Some (VInt z) else None      (* a negative int would become a huge size: refused *)
     end
   | _ => None
   end.
@@ -334,6 +337,40 @@ Fixpoint eval (e : expr) (s : state) : option (val * state) :=
         else
           match set_var budget_var (VInt 0) {| vars := vars s1; inb := inb s1; outb := outb s1 ++ firstn (Z.to_nat k) bytes |} with
           | Some s2 => Some (VInt 0, s2) | None => None end
+      | _ => None
+      end
+    | _ => None
+    end
+  | ELoadInt32 p i =>
+    match eval p s with
+    | Some (VPtr RIn o, s1) =>
+      match eval i s1 with
+      | Some (VInt k, s2) =>
+        let a := o + 4 * k in
+        if (0 <=? a) && (a + 4 <=? Z.of_nat (List.length (inb s2))) then
+          match skipn (Z.to_nat a) (inb s2) with
+          | b0 :: b1 :: b2 :: b3 :: _ => Some (VInt ((b0 + 256 * b1 + 65536 * b2 + 16777216 * b3 + 2147483648) mod u32 - 2147483648), s2)
+          | _ => None
+          end
+        else None
+      | _ => None
+      end
+    | _ => None
+    end
+  | EWriteBuf p n =>
+    match eval p s with
+    | Some (VPtr RIn o, s1) =>
+      match eval n s1 with
+      | Some (VInt k, s2) =>
+        if (0 <=? o) && (0 <=? k) && (o + k <=? Z.of_nat (List.length (inb s2))) then
+          match lookup budget_var (vars s2) with
+          | Some (VInt b) =>
+            let m := Z.min k b in
+            match set_var budget_var (VInt (b - m)) {| vars := vars s2; inb := inb s2; outb := outb s2 ++ firstn (Z.to_nat m) (skipn (Z.to_nat o) (inb s2)) |} with
+            | Some s3 => Some (VInt m, s3) | None => None end
+          | _ => None
+          end
+        else None
       | _ => None
       end
     | _ => None
